@@ -76,7 +76,16 @@ def gen(shard, rng, tier):
         for k in (0, 1, 2, 3, N - 3, N - 2, N - 1, N, N + 1, N + 2, 2**256 - 1, 2**255, 2**255 - 1, (N - 1) // 2, (N + 1) // 2):
             yield from case(k.to_bytes(32, "big"))
         for l in range(0, 65):
-            for content in ("zero", "one", "ff", "rand", "lead0", "n"):
+            for content in ("zero", "one", "ff", "rand", "lead0", "n", "ascii-hex", "ascii-hex-upper", "ascii-0x"):
+                if content.startswith("ascii"):
+                    # text of a key instead of its bytes (hex digits, optionally prefixed): a byte string like any other
+                    txt = ("%0*x" % (max(l, 1), rng.getrandbits(4 * max(l, 1))))[:l]
+                    if content == "ascii-hex-upper":
+                        txt = txt.upper()
+                    if content == "ascii-0x":
+                        txt = ("0x" + txt)[:l]
+                    yield from case(txt.encode())
+                    continue
                 if content == "zero":
                     b = bytes(l)
                 elif content == "one":
